@@ -99,6 +99,25 @@ def main():
                         disagreements.append({"what": "%s 0x%04X %s" % (ver, code, table[code]), "model": mt[:120], "impl": it[:120], "capture": s.capture.hex(), "keylog": s.keylog})
                 ck.case((ver, code, s.capture[:64]), sample=({"version": ver, "suite": table[code], "segments": len(s.packets), "app_bytes": [len(s.conn.plaintext(False)), len(s.conn.plaintext(True))]}
                                                             if ck.cov["evaluations"] % 23 == 0 else None))
+    # TLS 1.3 handshake shapes, every TLS 1.3 suite of the table: the server's encrypted flight fragmented across records at arbitrary bytes
+    # (RFC 8446 5.1), with and without record padding, middlebox CCS and handshake secrets in the log
+    codes13 = [c for c in sorted(table) if "TLS13" in tls_ref.valid_versions(c, iana_ref.denote(table[c]))]
+    for code in codes13:
+        for rep in range(3 if ck.tier == "quick" else 40):
+            ncuts = [1, 2, 5, 12][rep % 4]
+            s = tlsgen.single(rng, table, code, "TLS13", hist, hs13_cuts=[rng.randrange(1, 250) for _ in range(ncuts)], nrec=rng.choice([2, 5]), reclen=rng.choice([1, 40, 300]))
+            st, out, it = tlsgen.run_impl(impl, s.capture, s.keylog)
+            why = ("run ended with " + st) if st != "ok" else judge(s, out)
+            if why:
+                fails.append({"what": "TLS13 0x%04X %s, server flight fragmented into %d records: %s" % (code, table[code], sum(1 for srv, rec, kind, _ in s.conn.wire if kind == "hs" and srv), why),
+                              "capture": s.capture.hex(), "keylog": s.keylog,
+                              "client_plaintext": s.conn.plaintext(False).hex(), "server_plaintext": s.conn.plaintext(True).hex(), "scenario": describe(s)})
+            if m and len(s.packets) <= 400 and rep < 6:
+                hist["model_runs"] += 1
+                mt = tlsgen.canon_model(tlsgen.run_model(m, impl, s.capture, s.keylog, s.opts))
+                if mt != it:
+                    disagreements.append({"what": "TLS13 0x%04X fragmented flight" % code, "model": mt[:120], "impl": it[:120], "capture": s.capture.hex(), "keylog": s.keylog})
+            ck.case(("tls13-fragmented", code, s.capture[:64]))
     if m:
         ck.cov["oracle_queries"] = m.queries
         ck.cov["model_runs_skipped"] = m.skipped
@@ -108,7 +127,8 @@ def main():
     ck.cov["rule"] = ("one connection per capture from the reference sender: version x table suite valid for it (quick: one per protection class and MAC, rotating "
                       "with the seed, + 10 random; thorough: all, 3 histories each) x handshake shape x session-id length x extensions x encrypt-then-MAC x "
                       "TLS 1.3 handshake secrets in/out of the log x record padding x 0..20 application records of lengths 0..16384 in random direction order x "
-                      "segmentation schedule x IPv4/IPv6; non-trivial = every case (all carry a handshake)")
+                      "segmentation schedule x IPv4/IPv6; plus, for every TLS 1.3 suite, server flights fragmented across records at arbitrary bytes; non-trivial = every case "
+                      "(all carry a handshake)")
     ck.cov["dimension_histogram"] = dict(sorted(hist.items()))
     if disagreements:
         ck.broken.append({"kind": "correspondence", "count": len(disagreements), "first": [{k: v for k, v in d.items() if k != "capture"} for d in disagreements[:4]]})
